@@ -21,6 +21,11 @@ def raii_pre(s, lw):
     for ty, (cty, ctor, dtor) in RAII.items():
         pat = re.compile(r'(?<![\w:])' + re.escape(ty) + r'\s+(\w+)\s*\(([^;]*)\)\s*;')
         def rp(m):
+            # only objects whose scope is the whole function body are supported: anything else stops the run (exit 2)
+            pre = m.string[:m.start()]
+            if pre.count('{') - pre.count('}') != 1:
+                from xvlib import lower as L
+                raise L.ExtractError('RAII object %s declared in a nested scope: unit rule raii_pre does not cover this' % m.group(1))
             lw._raii.append((m.group(1), dtor)); lw.fire('raii_decl')
             return '%s %s; %s(&%s, &(%s));' % (cty, m.group(1), ctor, m.group(1), m.group(2))
         s = pat.sub(rp, s)
@@ -155,10 +160,12 @@ UNIT = dict(
     'lr.wait.spins_until_empty': dict(deciding=True, text='wait_for_readers(idx) returns only after empty() of indicator idx returned true; it reads no other counter and writes nothing'),
     'lr.read.bracket': dict(deciding=True, text='read: version load, then arrive on the indicator that version selects, then load of _lr_indicator, then the functor on the instance that load selected, then depart on the same indicator - on every exit including a throwing functor; returns the functor result; writes nothing else'),
     'lr.indicator.counts': dict(deciding=True, text='arrive/depart are +1/-1 on the indicator\'s own counter, empty() is counter == 0, get_read_indicator(i) is indicator i'),
-    'lr.sync.seq_cst': dict(deciding=True, text='sync: the sites named by the numbered comments are at least as strong as stated: (1) indicator load seq_cst, (2)(3) indicator store seq_cst, (4) arrive seq_cst RMW, (5) depart release-or-stronger RMW, (6) empty() load seq_cst'),
+    'lr.sync.seq_cst': dict(deciding=True, text='sync: the sites named by the numbered comments are at least as strong as stated: (1) indicator load seq_cst, (2)(3) indicator store seq_cst, (4) arrive seq_cst RMW, (5) depart release-or-stronger RMW, (6) empty() load seq_cst.  The _version_index load/store are relaxed in the code and named by no numbered comment; they are recorded but not constrained: exclusion does not depend on which indicator a reader picks, because the writer waits for both indicators after the seq_cst indicator store (lr.update.exclusion is proved with an arbitrarily stale version in the reader)'),
     'lr.read.wait_free': dict(deciding=True, text='[SOLO] read has no loop: it finishes in exactly five steps under any interference'),
     'lr.ctor.init': dict(deciding=True, text='the constructors establish the idle invariant: indicator == version index, both counters 0, mutex free, both instances initialised from the source(s)'),
   },
   loop_obligation={'WAIT': 'lr.wait.spins_until_empty'},
+  replays={'lr.update.order': dict(src='replay_update.cpp'), 'lr.update.mutex': dict(src='replay_update.cpp'), 'lr.toggle.order': dict(src='replay_update.cpp'),
+           'lr.read.bracket': dict(src='replay_read.cpp'), 'lr.indicator.counts': dict(src='replay_read.cpp')},
   canaries=['ctor.one', 'ctor.two', 'env_closed.reached', 'guard.v0', 'guard.v1', 'indicator.arrive', 'indicator.depart', 'indicator.empty', 'indicator.get', 'indicator.nonempty', 'indicator.pair', 'read.functor_threw', 'read.left', 'read.returned', 'read.right', 'read.v0', 'read.v1', 'read_int.indicator_moved', 'read_int.version_moved', 'read_seq.returned', 'read_seq.threw', 'toggle.v0', 'toggle.v1', 'toggle_int.arrived_on_new_version', 'toggle_int.new_reader_inside', 'update.left_first', 'update.right_first', 'update.throw_first', 'update.throw_second', 'update2.done', 'update2_int.reader_cycled_twice', 'update2_int.reader_inside_at_end', 'update_int.arrived_between_switch_and_toggle_old_version', 'update_int.arrived_between_switch_and_toggle_stale_version', 'update_int.reader_on_new_instance_during_second_application', 'update_int.reader_on_old_instance_during_first_application', 'wait.idx0', 'wait.idx1', 'wait.returned', 'wait_int.reader_cycled', 'wait_int.reader_on_other_indicator'],
 )
